@@ -26,11 +26,10 @@ ASSUMPTIONS = [
     "address collision)",
     "the Finalise case of C16_bisim is proved under a side condition evaluated at run time on the adapter model (class 5, "
     "fin_okb): every live object Finalise does not treat as dirty equals its persisted image, and every non-zero dirty slot of an "
-    "object written back has its original value cached; it is computed on every generated Finalise step (never false outside "
-    "the aftermath of C16.stale_dirty_index) but it is not proved to be an invariant",
+    "object written back has its original value cached; it is computed on every generated Finalise step (never false) but it is not proved to be an invariant",
 ]
 
-TRIGGERS = {1: "C16.removed_account_residue", 2: "C16.create_over_storage", 3: "C16.stale_dirty_index"}
+TRIGGERS = {1: "C16.removed_account_residue", 2: "C16.create_over_storage"}   # 3 was C16.stale_dirty_index (fixed 4b2faa6)
 OUTSIDE_CONTRACT = 4
 
 
